@@ -124,6 +124,13 @@ func (c *Chain) ProjectDid(ctx sdk.Context) M {
 		}
 		name, known := didRev[string(k[1:])]
 		doc, ok := absDoc(d.Document)
+		if !known && ok && d.Sequence <= 1_000_000 {
+			// an entry filed under a key outside the dictionary whose document IS nameable: reported as junk (conformance) and kept as a cell
+			// under the name "?<key>", so that the state formulas see what the registry really holds under that key
+			junk = append(junk, hx(k)+"="+hx(v))
+			cells = append(cells, M{"d": "?" + string(k[1:]), "doc": doc, "seq": int(d.Sequence), "nildoc": d.Document == nil})
+			continue
+		}
 		if !known || !ok || d.Sequence > 1_000_000 {
 			junk = append(junk, hx(k)+"="+hx(v))
 			continue
